@@ -995,6 +995,67 @@ def long_chain_stream(R, tier):
                         ctx.fail(case, f"reading .name: {type(e).__name__}", "a name or None", where="long-chain-name-raises")
 
 
+def special_receiver_stream(R, tier):
+    """The special elements (instances of SemanticPointer SUBCLASSES: Identity, NegativeIdentity, AbsorbingElement,
+    Zero — built directly and as handed out by a vocabulary) are Semantic Pointers: every operator and method gives
+    on them what it gives on a plain pointer with the same vector, algebra and vocabulary."""
+    from nengo_spa import semantic_pointer as spm
+    from nengo_spa.algebras.base import ElementSidedness as ES
+    ctx = R.ctx
+    p_ops = {
+        "copy": lambda p, q: p.copy(), "neg": lambda p, q: -p, "normalized": lambda p, q: p.normalized(),
+        "length": lambda p, q: p.length(), "len": lambda p, q: len(p), "half": lambda p, q: p * 0.5,
+        "div": lambda p, q: p / 4, "rhalf": lambda p, q: 0.5 * p, "add": lambda p, q: p + q, "radd": lambda p, q: q + p,
+        "sub": lambda p, q: p - q, "rsub": lambda p, q: q - p, "mul": lambda p, q: p * q, "rmul": lambda p, q: q * p,
+        "dot": lambda p, q: p.dot(q), "compare": lambda p, q: p.compare(q), "mse": lambda p, q: p.mse(q),
+        "distance": lambda p, q: p.distance(q), "rinv": lambda p, q: p.rinv(), "pow2": lambda p, q: p ** 2,
+        "mat": lambda p, q: p.get_binding_matrix(), "reinterpret": lambda p, q: p.reinterpret(p.vocab),
+    }
+    for alg, A in ALG.items():
+        for d in (4, 9) if tier == "quick" else (4, 9, 16):
+            vocab = R.vocab(alg, d)
+            side = {"sidedness": ES.RIGHT} if alg == "vtb" else {}
+            makers = [("Identity", lambda: spm.Identity(d, algebra=A, **side)), ("Zero", lambda: spm.Zero(d, algebra=A)),
+                      ("NegativeIdentity", lambda: spm.NegativeIdentity(d, algebra=A, **side)),
+                      ("Identity-of-vocab", lambda: spm.Identity(d, vocab=vocab, **side)),
+                      ("vocab[Identity]", lambda: vocab["Identity"]), ("vocab[Zero]", lambda: vocab["Zero"]),
+                      ("parse(Zero)", lambda: vocab.parse("Zero"))]
+            if alg == "hrr":
+                makers += [("AbsorbingElement", lambda: spm.AbsorbingElement(d, algebra=A)),
+                           ("vocab[AbsorbingElement]", lambda: vocab["AbsorbingElement"])]
+            other_v = fl([F(1), F(-2), F(3, 4)] + [F(1, 2)] * (d - 3))
+            for rname, mk in makers:
+                with warnings.catch_warnings():
+                    warnings.simplefilter("ignore")
+                    try:
+                        r = mk()
+                    except Exception as e:  # noqa: BLE001
+                        ctx.fail({"op": "special-receiver", "alg": alg, "d": d, "receiver": rname}, f"{type(e).__name__}: {e}"[:80],
+                                 "the special element", where="special-receiver-construct")
+                        continue
+                    plain = SP(np.array(r.v), vocab=r.vocab) if r.vocab is not None else SP(np.array(r.v), algebra=A)
+                    q = SP(other_v, vocab=r.vocab) if r.vocab is not None else SP(other_v, algebra=A)
+                    for oname, fn in p_ops.items():
+                        case = {"op": "special-receiver", "alg": alg, "d": d, "receiver": rname, "operator": oname}
+                        ctx.count(" ".join(f"{k}={v}" for k, v in case.items()), branch="special-receiver")
+                        outs = []
+                        for obj in (r, plain):
+                            try:
+                                outs.append(("ok", fn(obj, q)))
+                            except Exception as e:  # noqa: BLE001
+                                outs.append(("err", type(e).__name__))
+                        (s1, a), (s2, b) = outs
+                        same = s1 == s2 and (
+                            (s1 == "err" and a == b) or
+                            (s1 == "ok" and isinstance(a, SP) and isinstance(b, SP) and np.array_equal(a.v, b.v)
+                             and a.algebra is b.algebra and a.vocab is b.vocab) or
+                            (s1 == "ok" and not isinstance(a, SP) and not isinstance(b, SP)
+                             and np.array_equal(np.asarray(a, dtype=float), np.asarray(b, dtype=float))))
+                        if not same:
+                            ctx.fail(case, [s1, a if s1 == "err" else type(a).__name__], [s2, b if s2 == "err" else "the plain pointer's result"],
+                                     where="special-receiver-differs")
+
+
 def run(ctx):
     R = Run(ctx)
     tier = ctx.tier
@@ -1012,6 +1073,7 @@ def run(ctx):
             binary_stream(R, alg, 16, vs[1:4], tier)
     spy_stream(R, tier)
     long_chain_stream(R, tier)
+    special_receiver_stream(R, tier)
     memory_stream(R, tier)
     malformed_stream(R)
     import time as _t
